@@ -157,6 +157,8 @@ def parse_impl_inner(line, lr, kr, nr):
     info = {"raw": line[:2000]}
     if line == "PANIC":
         return "IOther", dict(info, kind="panic")
+    if line == "HANG":
+        return "IOther", dict(info, kind="hang")
     if line.startswith("RAW"):
         return "IOther", dict(info, kind="rejected-before-merge")
     parts = line.split("|")
@@ -243,18 +245,81 @@ def coq_case(proj, suppress, line):
     return term, info
 
 
-def run_harness(exe, dirs, mode="merge", timeout=900):
-    inp = "".join("%s\t%s\n" % (mode, d) for d in dirs)
-    rc, out, err = core.sh([exe], input=inp, timeout=timeout)
-    lines = out.splitlines()
-    if rc != 0 or len(lines) != len(dirs):
-        # the harness process died (abort / stack overflow are not unwinding panics): find the case, one process each
-        lines = []
-        for d in dirs:
-            rc1, out1, _ = core.sh([exe], input="%s\t%s\n" % (mode, d), timeout=120)
-            l1 = out1.splitlines()
-            lines.append(l1[0] if rc1 == 0 and len(l1) == 1 else "PANIC")
-    return lines
+HANG_LIMIT = 20.0     # seconds without an answer for ONE project before the harness is declared hung on it
+MAX_HANGS = 6         # after that many hung projects the rest of the batch is not run (counted, not judged)
+
+
+def _stream(exe, dirs, mode, limit):
+    """feed the projects to one harness process and read one answer per project; stops at the first project whose
+    answer does not come within [limit] seconds (or when the process dies).  Returns (lines, status) with status
+    'done' | 'hang' | 'died': the project at index len(lines) is the one that hung / killed the process."""
+    import queue
+    import subprocess
+    import threading
+    proc = subprocess.Popen([exe], stdin=subprocess.PIPE, stdout=subprocess.PIPE, stderr=subprocess.DEVNULL, text=True)
+    q = queue.Queue()
+
+    def feed():
+        try:
+            proc.stdin.write("".join("%s\t%s\n" % (mode, d) for d in dirs))
+            proc.stdin.close()
+        except (BrokenPipeError, OSError, ValueError):
+            pass
+
+    def read():
+        for ln in proc.stdout:
+            q.put(ln.rstrip("\n"))
+        q.put(None)
+    threading.Thread(target=feed, daemon=True).start()
+    threading.Thread(target=read, daemon=True).start()
+    lines, status = [], "done"
+    while len(lines) < len(dirs):
+        try:
+            ln = q.get(timeout=limit)
+        except queue.Empty:
+            status = "hang"
+            break
+        if ln is None:
+            status = "died"
+            break
+        lines.append(ln)
+    try:
+        proc.kill()
+    except OSError:
+        pass
+    proc.wait()
+    return lines, status
+
+
+def run_harness(exe, dirs, mode="merge", timeout=900, hang_limit=None):
+    """one canonical answer line per project.  Every project has a wall-clock limit: a project on which the harness
+    does not answer is re-run alone in its own process and, if it still does not answer, gets the line HANG; a
+    project on which the process dies gets PANIC (abort / stack overflow are not unwinding panics).  After MAX_HANGS
+    hung projects the remaining ones get NOTRUN."""
+    limit = hang_limit or HANG_LIMIT
+    out = []
+    todo = list(dirs)
+    hangs = 0
+    while todo:
+        if hangs >= MAX_HANGS:
+            out += ["NOTRUN"] * len(todo)
+            break
+        lines, status = _stream(exe, todo, mode, limit)
+        out += lines
+        todo = todo[len(lines):]
+        if status == "done" or not todo:
+            break
+        # the first project left is the suspect: confirm alone, in a fresh process
+        l1, st1 = _stream(exe, todo[:1], mode, limit)
+        if st1 == "done":
+            out.append(l1[0])
+        elif st1 == "hang":
+            out.append("HANG")
+            hangs += 1
+        else:
+            out.append("PANIC")
+        todo = todo[1:]
+    return out
 
 
 def build_variant(ctx, features):
@@ -328,16 +393,21 @@ def functional_graphs(others, everyone):
 
 # ------------------------------------------------------------------ evaluation, shrinking
 
-def evaluate(ctx, exe, projs, suppress, tag, fn):
+def evaluate(ctx, exe, projs, suppress, tag, fn, hang_limit=None):
+    """(metas, codes); projects that were not run because too many earlier ones hung are left out and counted in
+    ctx.not_run"""
     root = os.path.join(ctx.work, "proj_" + tag)
     dirs = []
     for i, (_, p) in enumerate(projs):
         d = os.path.join(root, "c%d" % i)
         write_project(d, p)
         dirs.append(d)
-    lines = run_harness(exe, dirs)
+    lines = run_harness(exe, dirs, hang_limit=hang_limit)
     items, metas = [], []
     for (kind, p), line in zip(projs, lines):
+        if line == "NOTRUN":
+            ctx.not_run = getattr(ctx, "not_run", 0) + 1
+            continue
         term, info = coq_case(p, suppress, line)
         items.append(term)
         metas.append({"kind": kind, "project": p, "suppress": suppress, "impl": info})
@@ -354,16 +424,17 @@ def size_of(p):
 def shrink(ctx, exe, meta, fn):
     """greedy: drop top-level keys (from every file) and locales while the check still answers 3"""
     p = json.loads(json.dumps(meta["project"]))
-    budget = 40
+    hung = meta["impl"].get("kind") == "hang"
+    budget = 16 if hung else 40          # every attempt that still hangs costs the hang limit
 
     def still_fails(q):
         nonlocal budget
         budget -= 1
         try:
-            _, codes = evaluate(ctx, exe, [("shrink", q)], meta["suppress"], "shrink", fn)
+            _, codes = evaluate(ctx, exe, [("shrink", q)], meta["suppress"], "shrink", fn, hang_limit=6.0 if hung else None)
         except core.Infra:
             return False
-        return codes[0] == 3
+        return bool(codes) and codes[0] == 3
     changed = True
     while changed and budget > 0:
         changed = False
